@@ -16,13 +16,14 @@ Inductive apires :=
   | RInt (n : Z) | RUnit | RExn (e : exn).
 
 (* WebSocket.recv(): text is decoded (CPython's strict UTF-8 decoder accepts exactly the
-   well-formed sequences), binary is returned as is, anything else gives "" *)
+   well-formed sequences); a text payload that cannot be decoded -- only possible with validation
+   off -- is handed over as bytes, unchanged; binary is returned as is, anything else gives "" *)
 Definition ws_recv (w : ws) : apires * ws :=
   match ws_recv_data_frame (rdf_fuel w) false w with
   | (Raise e, w') => (RExn e, w')
   | (Ok (op, f), w') =>
     if op =? OPCODE_TEXT then
-      if validate_utf8 (a_data f) then (RRecv 1 (a_data f), w') else (RExn (Internal UnicodeDec), w')
+      if validate_utf8 (a_data f) then (RRecv 1 (a_data f), w') else (RRecv 2 (a_data f), w')
     else if op =? OPCODE_BINARY then (RRecv 2 (a_data f), w')
     else (RRecv 0 [], w')
   end.
